@@ -9,8 +9,8 @@ SPEC = {
     "required_theorems": ["initiator_no_panic_partial", "responder_no_panic_partial", "initiator_panic_only_overflow",
                           "full_statement_fails", "all_sites_discharged"],
     "translators": [scan_panics.scan_p2p],
-    "streams": [{"name": "p2p_events", "quick": 250, "thorough": 6000},
-                {"name": "p2p_resp", "quick": 250, "thorough": 6000}],
+    "streams": [{"name": "p2p_events", "quick": 500, "thorough": 15000},
+                {"name": "p2p_resp", "quick": 500, "thorough": 15000}],
     "rule": "event sequences (5..300 events, 2..12 peers) for InitiatorBehavior (stream p2p_events) and ResponderBehavior "
             "(p2p_resp): connected/disconnected/error in any order, Recv batches and Sent confirmations drawn from 41/44 message "
             "shapes of all eight mini-protocols (mostly violations in the current state), housekeeping/idle, every command; "
